@@ -28,7 +28,7 @@ RULE = ('fault space = stage in {mapping via run_mapping (per-chunk files), '
         'query-marker selection, parallel transposition} x every worker the '
         'stage dispatches on a small input (counted by a fault-free dry run) '
         'x {SIGKILL, SIGTERM, os._exit(3), sys.exit(7), raise} x {before, mid, after}.  Thorough = the full '
-        'product; quick = every (stage, mode, point) on a rotating worker.  '
+        'product; quick = every (stage, mode, point) on a rotating worker, and on the first and the last worker for SIGKILL and raise.  '
         'A case is non-trivial when the victim\'s exit code shows the fault '
         'was delivered; distinct = distinct (stage, worker, mode, point)')
 ASSUMPTIONS = [
@@ -87,6 +87,7 @@ REQUIRED_COUNTERS += [f'stage_{s}' for s in STAGES]
 
 # workers dispatched by each stage on the standard small input (measured by
 # the dry run of each case; this table only sizes the enumeration)
+MAX_WORKERS = 9
 N_WORKERS_HINT = {
     'mapping': 4, 'mapping_obsm_only': 4, 'mapping_direct': 4, 'stats': 3, 'refmarkers_score': 2,
     'refmarkers_transpose': 4, 'pmask': 2, 'pmask_markers': 2,
@@ -102,9 +103,15 @@ def gen_cases(tier, seed):
         for mi, mode in enumerate(MODES):
             for pi, point in enumerate(POINTS):
                 if tier == 'thorough':
-                    workers = list(range(nw))
+                    # every worker index a stage can dispatch on these
+                    # inputs; indices beyond the dry-run count are skipped
+                    workers = list(range(MAX_WORKERS))
                 else:
-                    workers = [(seed + rot) % nw]
+                    # a rotating worker, plus the first and the last one
+                    # dispatched (first chunk / root parent / tail chunk)
+                    workers = sorted({(seed + rot) % nw, 0, -1}) \
+                        if mode in ('kill', 'raise') else \
+                        [(seed + rot) % nw]
                     rot += 1
                 for wk in workers:
                     cases.append({'stage': stage, 'mode': mode,
@@ -136,7 +143,7 @@ class Env(object):
         self.tmp.mkdir(parents=True, exist_ok=True)
         self.ref = pw.make_reference(rng, self.work, n_levels=3,
                                      n_leaves=n_leaves, n_genes=n_genes,
-                                     cells_per_leaf=(8, 12))
+                                     cells_per_leaf=(8, 12), rich=True)
         self.stats = self.work / 'stats.h5'
         self.refm = self.work / 'refm.h5'
         self.pmask = self.work / 'pmask.h5'
@@ -151,10 +158,14 @@ class Env(object):
         self.query = self.work / 'query.h5ad'
         n = n_query
         Xq = self.ref.X[:n].copy()
-        # half of the query cells are mixtures of cells of different leaves:
+        # three quarters of the query cells are mixtures of cells of different leaves:
         # their bootstrap votes split and tie between candidate types
-        for i in range(n // 2, n):
+        for i in range(n // 4, n):
             a, b = rng.integers(0, len(self.ref.X), size=2)
+            for _ in range(20):
+                if self.ref.labels[a] != self.ref.labels[b]:
+                    break
+                b = int(rng.integers(0, len(self.ref.X)))
             Xq[i] = np.floor((self.ref.X[a] + self.ref.X[b]) / 2.0)
         mapworld.write_h5ad(self.query, Xq,
                             [f'q{i}' for i in range(n)], self.ref.genes,
@@ -189,7 +200,7 @@ def run_stage(env, stage, out_dir, n_proc=None):
             cfg = pw.mapping_config(out_dir, env.query, env.stats,
                                     env.lookup, chunk_size=3,
                                     n_processors=NP(5),
-                                    bootstrap_iteration=6,
+                                    bootstrap_iteration=2,
                                     bootstrap_factor=0.5, n_runners_up=4)
             outs['config'] = cfg
             from cell_type_mapper.cli.from_specified_markers import (
@@ -355,6 +366,9 @@ def run_case(spec, work):
     if n_workers == 0:
         return {'violations': [], 'counters': counters,
                 'inconclusive': f'{stage} dispatched no worker',
+                'features': None, 'nontrivial': False}
+    if spec['worker'] >= n_workers:
+        return {'violations': [], 'counters': {'worker_index_beyond_stage': 1},
                 'features': None, 'nontrivial': False}
     victim = spec['worker'] % n_workers
     plan = {'log_dir': str(env.work / 'inj1'),
